@@ -34,6 +34,15 @@ Procedure:
 7. Leave the worktree clean at the end (`git checkout -- . && git clean -fdq`). Final message: 5 lines per change (what, why subtle, demo result, tests run).
 Budget: about 60-90 minutes. Run anything that might hang under `timeout`.
 """ % {"wt": wt, "outd": outd, "pid": pid, "prop": json.dumps({k: prop[k] for k in ("id", "title", "statement", "quantifier", "why_tests_cant", "anchors")}, indent=1)}
+import glob
+tried = []
+for m in sorted(glob.glob("/verif/seeded/%s-*/meta.json" % pid)):
+    try:
+        tried.append("- " + json.load(open(m)).get("summary", "")[:300])
+    except Exception:
+        pass
+if tried:
+    txt += "\nALREADY TRIED by earlier rounds (do NOT repeat these or close variants; find a different mechanism, a different code site, or a different kind of trigger — e.g. if earlier ones needed an unusual input, look for one that needs an interleaving, a fault at a specific point, or a multi-step history):\n" + "\n".join(tried) + "\n"
 pp = "/tmp/seed-prompts/%s-%s.txt" % (pid, tag)
 open(pp, "w").write(txt)
 print(pp)
